@@ -85,7 +85,7 @@ type Plan struct {
 	// Script injects exactly these faults (by ordinal of the seam event in the
 	// run) regardless of the decision stream: fault enumeration.
 	Script []ScriptedFault `json:"script,omitempty"`
-	// ScriptChain applies chain events after the n-th successful Converge.
+	// ScriptChain applies chain events when a position is first recorded.
 	ScriptChain []ScriptedChain `json:"script_chain,omitempty"`
 	// Idle lists pair keys ("src/ig") that get no runner (never started).
 	Idle []string `json:"idle,omitempty"`
@@ -148,10 +148,12 @@ type ScriptedFault struct {
 }
 
 type ScriptedChain struct {
-	AfterOK int    `json:"after_ok"`
-	Src     string `json:"src"`
-	Action  string `json:"action"` // grow | reorg
-	N       int    `json:"n,omitempty"`
-	Depth   int    `json:"depth,omitempty"`
-	NewLen  int    `json:"new_len,omitempty"`
+	// AtPos: fire once, when some pair of Src first records a position >= AtPos
+	// (robust under faults, unlike counting successful calls).
+	AtPos  int64  `json:"at_pos"`
+	Src    string `json:"src"`
+	Action string `json:"action"` // grow | reorg
+	N      int    `json:"n,omitempty"`
+	Depth  int    `json:"depth,omitempty"`
+	NewLen int    `json:"new_len,omitempty"`
 }
